@@ -227,6 +227,9 @@ func (cfg *ipCfg[S]) block(act *ipAct, b, pred *ssa.BasicBlock, from int, s S, e
 					return
 				}
 				for j, sb := range b.Succs {
+					if deadEdge(b, sb) {
+						continue
+					}
 					e2 := env.clone()
 					e2.learn(x.Cond, j == 0)
 					cfg.block(act, sb, b, 0, s, e2, stack, fns, k)
@@ -237,7 +240,7 @@ func (cfg *ipCfg[S]) block(act *ipAct, b, pred *ssa.BasicBlock, from int, s S, e
 			s = cfg.Step(x, s, env, stack)
 		}
 	}
-	for _, sb := range b.Succs {
+	for _, sb := range liveSuccs(b) {
 		cfg.block(act, sb, b, 0, s, env, stack, fns, k)
 	}
 }
